@@ -838,6 +838,12 @@ def run(rep):
                                   "ASan/UBSan build: %s on a generated container history" % (san[0][:160] if san else "status %d / transcript differs" % rc))
         rep.coverage["asan_runs"] = len(sel)
         rep.coverage["asan_failures"] = nbad
+        if hasattr(common, "coqchk"):
+            okc, summary = common.coqchk(PROP)
+            rep.coverage["coqchk"] = {"ok": okc, "summary": summary[-1200:]}
+            if not okc:
+                rep.violation("coqchk", {"summary": summary[-3000:]},
+                              "coqchk rejects the compiled closure of Properties_C19", True)
 
     # ---- known findings: replay each stored input
     for f in common.known_findings(PROP):
